@@ -96,6 +96,47 @@ fn idle_full_flush(ctx: &mut Ctx, cfg: &Cfg, a: &[u8], b: &[u8], first: u8) {
     ctx.line(&format!("ENC id={} rp=IDLEFULL;first={};split={} checks=rt modes=- {} in={} comp={}", id, first, a.len(), cfg.describe(), hex(&data), hex(&out)));
 }
 
+/// The same flush request repeated with empty input while earlier output is still being drained
+/// through a small buffer: the first repetition made when nothing is pending any more is a
+/// qualifying flush point (it must complete the flush the drained calls could not perform).
+/// `a` is sized so that the engine cuts a block of its own just as the input of the first call ends.
+fn pending_flush(ctx: &mut Ctx, cfg: &Cfg, a: &[u8], b: &[u8], flush: u8, out_size: usize) {
+    let id = ctx.id();
+    let mut data = a.to_vec(); data.extend_from_slice(b);
+    let replay = format!("PENDFLUSH {} flush={} split={} osz={} in={}", cfg.describe(), flush, a.len(), out_size, hex(&data));
+    ctx.eval(fnv(&data) ^ (flush as u64) << 3 ^ out_size as u64 ^ 0x9e4d);
+    ctx.count("pending_flush_cases");
+    let mut c = cfg.make();
+    let mut outv: Vec<u8> = vec![];
+    let mut buf = vec![0u8; out_size];
+    let mut ipos = 0usize;
+    let mut prev_spare = true;
+    let mut drained_calls = 0;
+    let mut point: Option<usize> = None;
+    for _ in 0..200_000 {
+        let (st, cin, cout) = compress(&mut c, &a[ipos..], &mut buf, flush_of(flush));
+        if st != TDEFLStatus::Okay { ctx.violation(id, "status", format!("flush call: {:?}", st), replay); return; }
+        outv.extend_from_slice(&buf[..cout]); ipos += cin;
+        let spare = cout < out_size;
+        if ipos == a.len() && spare && prev_spare { point = Some(outv.len()); break; }
+        if !prev_spare { drained_calls += 1; }
+        prev_spare = spare;
+    }
+    let Some(opos) = point else { ctx.violation(id, "progress", "no qualifying flush point reached".into(), replay); return; };
+    if drained_calls > 0 { ctx.count("pending_flush_with_drain"); }
+    ctx.count("prefixes_checked");
+    ctx.line(&format!("PFX id={} rp=PENDFLUSH;flush={};split={};osz={};inkey=full {} kind={} in={} out={} full={}", id, flush, a.len(), out_size, cfg.describe(), flush, hex(a), hex(&outv), hex(&data)));
+    let mut big = vec![0u8; b.len() * 2 + 4000];
+    let (st, i, o) = compress(&mut c, b, &mut big, TDEFLFlush::Finish);
+    if st != TDEFLStatus::Done || i != b.len() { ctx.violation(id, "status", format!("finish call: {:?} consumed {} of {}", st, i, b.len()), replay); return; }
+    outv.extend_from_slice(&big[..o]);
+    if flush == 3 {
+        ctx.count("tails");
+        ctx.line(&format!("TAIL id={} rp=PENDFLUSH;flush={};split={};osz={};inkey=full {} tail={} expect={} full={}", id, flush, a.len(), out_size, cfg.describe(), hex(&outv[opos..]), hex(b), hex(&data)));
+    }
+    ctx.line(&format!("ENC id={} rp=PENDFLUSH;flush={};split={};osz={} checks=rt modes=- {} in={} comp={}", id, flush, a.len(), out_size, cfg.describe(), hex(&data), hex(&outv)));
+}
+
 pub fn run(ctx: &mut Ctx) {
     if let Some(lines) = ctx.replay_lines.clone() {
         for l in lines {
@@ -106,6 +147,13 @@ pub fn run(ctx: &mut Ctx) {
                 let data = crate::tx::unhex(&kv["in"]);
                 let k: usize = kv["split"].parse().unwrap();
                 idle_full_flush(ctx, &cfg, &data[..k.min(data.len())], &data[k.min(data.len())..], kv["first"].parse().unwrap());
+                continue;
+            }
+            if tag == "PENDFLUSH" {
+                let cfg = Cfg { level: kv["level"].parse().unwrap(), strategy: kv["strategy"].parse().unwrap(), zlib: kv["fmt"] == "1", wb: kv["wb"].parse().unwrap() };
+                let data = crate::tx::unhex(&kv["in"]);
+                let k: usize = kv["split"].parse().unwrap();
+                pending_flush(ctx, &cfg, &data[..k.min(data.len())], &data[k.min(data.len())..], kv["flush"].parse().unwrap(), kv["osz"].parse().unwrap());
                 continue;
             }
             if tag != "FLUSH" && tag != "NOSYNC" { continue; }
@@ -142,5 +190,18 @@ pub fn run(ctx: &mut Ctx) {
         let b = a[a.len() - take..].to_vec();
         let first = *ctx.rng.pick(&[1u8, 2, 2, 3, 5, 6, 7, 0]);
         idle_full_flush(ctx, &cfg, &a, &b, first);
+    }
+    // a flush repeated while output is pending: input lengths around the engine's own block cuts
+    // (31 KiB of literals, 64 Ki LZ codes), small output buffers
+    for k in 0..(50 * ctx.scale) {
+        let cfg = if k % 2 == 0 { Cfg { level: *ctx.rng.pick(&[1u8, 2, 6, 6, 9]), strategy: 0, zlib: k % 4 == 0, wb: 15 } } else { Cfg::random(&mut ctx.rng) };
+        let incompressible = k % 5 != 4;
+        let len = if incompressible { *ctx.rng.pick(&[31744usize, 31745, 31800, 31900, 32000, 32002, 32003, 63488 + 200, 95232 + 300]) + if k % 7 == 0 { ctx.rng.range(0, 300) } else { 0 } } else { ctx.rng.range(1000, 90000) };
+        let a = if incompressible { ctx.rng.bytes(len) } else { let kind = *ctx.rng.pick(plain::KINDS); plain::gen(&mut ctx.rng, kind, len) };
+        let take = ctx.rng.range(20, 3000).min(a.len());
+        let b = a[a.len() - take..].to_vec();
+        let flush = *ctx.rng.pick(&[1u8, 2, 2, 3, 3]);
+        let osz = *ctx.rng.pick(&[64usize, 300, 1000, 1000, 4096]);
+        pending_flush(ctx, &cfg, &a, &b, flush, osz);
     }
 }
